@@ -8,7 +8,9 @@
 namespace {
 using ks::Cg;
 const char* kPlugins[] = {"kill_by_memory_size_or_growth", "kill_by_pressure", "kill_by_swap_usage", "kill_by_pg_scan"};
-const char* kPre[] = {"", "0", "41", "2147483000"};
+// pre-existing (trusted.*, user.*) counter values; the two namespaces are independent counters and may differ
+const char* kPre[][2] = {{"", ""}, {"0", "0"}, {"41", "41"}, {"2147483000", "2147483000"}, {"41", "7"}, {"", "5"}, {"9", ""}};
+const size_t kNPre = sizeof kPre / sizeof kPre[0];
 const char* kSil[] = {"", "plugins", "engine,plugins"};
 
 struct C17 : vr::Driver {
@@ -21,7 +23,7 @@ struct C17 : vr::Driver {
     bool th = tier == "thorough";
     plugins = th ? std::vector<int>{0, 1, 2, 3} : std::vector<int>{0, 1};
     // dims: shape(2) pop(4) outcome(4) pre(4) plugin silence(3) always_continue(2) dry(2) kernelkill(2) history(2)
-    mx.dims = {2, 4, 4, 4, plugins.size(), 3, 2, 2, 2, 2};
+    mx.dims = {2, 4, 4, kNPre, plugins.size(), 3, 2, 2, 2, 2};
   }
   size_t count() override { return mx.total(); }
   size_t chunk() override { return 16; }
@@ -48,11 +50,13 @@ struct C17 : vr::Driver {
       c.p60 = 6 + 2 * (double)i;
       c.pgscan = 100 * (long long)(i + 1);
       c.outcome = (int)d[2];
-      if (*kPre[d[3]]) {
-        for (const char* ns : {"trusted.", "user."}) {
-          c.xattrs[std::string(ns) + "oomd_ooms"] = kPre[d[3]];
-          c.xattrs[std::string(ns) + "oomd_kill"] = kPre[d[3]];
-        }
+      {
+        const char* nss[2] = {"trusted.", "user."};
+        for (int n = 0; n < 2; n++)
+          if (*kPre[d[3]][n]) {
+            c.xattrs[std::string(nss[n]) + "oomd_ooms"] = kPre[d[3]][n];
+            c.xattrs[std::string(nss[n]) + "oomd_kill"] = kPre[d[3]][n];
+          }
       }
       s.cgs.push_back(c);
     }
@@ -198,11 +202,11 @@ struct C17 : vr::Driver {
     for (auto& a : o.attempts) ob << a.tick << a.victim << a.signalled() << "/" << a.failedPids.size() << (a.dry ? "d" : "") << ";";
     r.counters["attempts"] += (long long)o.attempts.size();
     r.counters["successful_attempts"] += successesTotal;
-    if (!o.attempts.empty()) r.nontrivial(s.plugin + s.silence + ob.str() + kPre[mx.decode(idx)[3]]);
+    if (!o.attempts.empty()) r.nontrivial(s.plugin + s.silence + ob.str() + kPre[mx.decode(idx)[3]][0] + "/" + kPre[mx.decode(idx)[3]][1]);
   }
   std::string rule() override {
     return "full product: 2 shapes (flat siblings; victim with nested descendants) x 4 populations (1, 25, best-candidate-empty, nested) x "
-           "4 kill outcomes (all die, all ESRCH, first EPERM, first lingers) x pre-existing xattr values {absent,0,41,2147483000} x plugin "
+           "4 kill outcomes (all die, all ESRCH, first EPERM, first lingers) x pre-existing (trusted,user) xattr counter values {absent,0,41,2147483000 in both; 41/7; absent/5; 9/absent} x plugin "
            "x silence-logs {none, plugins, engine+plugins} x always_continue x dry x kernelkill x history (3 ticks; optionally the dead "
            "cgroup gets a new process and is killed again); monitor per attempt: uuid xattr = fresh id, oomd_ooms +1, oomd_kill + "
            "successful SIGKILLs, exactly one structured kmsg record iff >=1 process signalled (also when plugin logs are silenced), "
